@@ -63,7 +63,7 @@ try:
         for i in range(1, 21):
             pid = f"C{i:02d}"
             of = tempfile.mktemp(suffix='.json')
-            rc, out = sh(f"/verif/bin/prunnerlint -property {pid} -repo {S} -verif /verif -config linux/amd64 -obs-out {of}")
+            rc, out = sh(f"{os.environ.get('PRUNNERLINT','/verif/bin/prunnerlint')} -property {pid} -repo {S} -verif /verif -config linux/amd64 -obs-out {of}")
             try:
                 v = json.load(open(of)); os.remove(of)
             except Exception as e:
